@@ -637,11 +637,118 @@ package connect
 //@ func (*interceptorsOption).applyToClient(o, config)
 //@   tags C16
 //@   requires o != nil && config != nil
+//@   implements ClientOption.applyToClient
 //@   assigns config.Interceptor
 //@   ensures flat(config.Interceptor) == old(flat(config.Interceptor)) ++ fall(seq(o.Interceptors), 0)   // label: appends-in-declaration-order
 
 //@ func (*interceptorsOption).applyToHandler(o, config)
 //@   tags C16
 //@   requires o != nil && config != nil
+//@   implements HandlerOption.applyToHandler
 //@   assigns config.Interceptor
 //@   ensures flat(config.Interceptor) == old(flat(config.Interceptor)) ++ fall(seq(o.Interceptors), 0)   // label: appends-in-declaration-order
+
+// --- option trees ------------------------------------------------------------------
+// decl(o): the interceptors an option value declares, left to right through any
+// nesting. It is fixed when the option is constructed (clauses `defines`); for
+// option types that carry no interceptors it is empty.
+//@ spec decl(o ref) seq
+//@ axiom decl_other: forall o ref :: {decl(o)} !typeis(o, "*interceptorsOption") && !typeis(o, "*optionsOption") && !typeis(o, "*clientOptionsOption") && !typeis(o, "*handlerOptionsOption") ==> decl(o) == []
+// dpre(O, k) = decl(O[0]) ++ ... ++ decl(O[k-1])
+//@ spec dpre(os seq, k int) seq
+//@ spec unfoldDpre(os seq, k int) bool = true
+//@ axiom dpre_zero: forall os seq :: {dpre(os, 0)} dpre(os, 0) == []
+//@ axiom dpre_step: forall os seq, k int :: {unfoldDpre(os, k)} 0 <= k && k < |os| ==> dpre(os, k + 1) == dpre(os, k) ++ decl(os[k])
+//@ constfield interceptorsOption.Interceptors, optionsOption.options, clientOptionsOption.options, handlerOptionsOption.options
+// config.Interceptor changes only through interceptorsOption (so every other option type satisfies the interface contract below trivially).
+//@ storedonlyin clientConfig.Interceptor (*interceptorsOption).applyToClient
+//@ storedonlyin handlerConfig.Interceptor (*interceptorsOption).applyToHandler
+
+//@ func WithInterceptors(interceptors) res
+//@   tags C16
+//@   defines decl(res) == fall(seq(interceptors), 0)
+//@   ensures fresh(res) && typeis(res, "*interceptorsOption")
+//@ typeinv *interceptorsOption o by WithInterceptors: decl(o) == fall(seq(o.Interceptors), 0)
+
+//@ func WithOptions(options) res
+//@   tags C16
+//@   defines decl(res) == dpre(seq(options), |options|)
+//@   ensures fresh(res) && typeis(res, "*optionsOption")
+//@ typeinv *optionsOption o by WithOptions: decl(o) == dpre(seq(o.options), |o.options|)
+
+//@ func WithClientOptions(options) res
+//@   tags C16
+//@   defines decl(res) == dpre(seq(options), |options|)
+//@   ensures fresh(res) && typeis(res, "*clientOptionsOption")
+//@ typeinv *clientOptionsOption o by WithClientOptions: decl(o) == dpre(seq(o.options), |o.options|)
+
+//@ func WithHandlerOptions(options) res
+//@   tags C16
+//@   defines decl(res) == dpre(seq(options), |options|)
+//@   ensures fresh(res) && typeis(res, "*handlerOptionsOption")
+//@ typeinv *handlerOptionsOption o by WithHandlerOptions: decl(o) == dpre(seq(o.options), |o.options|)
+
+// Interface contract of applying an option: the config's chain grows by exactly
+// the option's declared interceptors. Proved for the five implementations that
+// can touch config.Interceptor; the others cannot store to it (scan above).
+//@ trusted func ClientOption.applyToClient(o, config)
+//@   requires config != nil
+//@   assigns fields(config), mapof(config.CompressionPools), mapvals(config.CompressionPools)
+//@   ensures flat(config.Interceptor) == old(flat(config.Interceptor)) ++ decl(o)
+//@ trusted func HandlerOption.applyToHandler(o, config)
+//@   requires config != nil
+//@   assigns fields(config), mapof(config.CompressionPools), mapvals(config.CompressionPools), mapof(config.Codecs), mapvals(config.Codecs)
+//@   ensures flat(config.Interceptor) == old(flat(config.Interceptor)) ++ decl(o)
+//@ trusted func Option.applyToClient(o, config)
+//@   requires config != nil
+//@   assigns fields(config), mapof(config.CompressionPools), mapvals(config.CompressionPools)
+//@   ensures flat(config.Interceptor) == old(flat(config.Interceptor)) ++ decl(o)
+//@ trusted func Option.applyToHandler(o, config)
+//@   requires config != nil
+//@   assigns fields(config), mapof(config.CompressionPools), mapvals(config.CompressionPools), mapof(config.Codecs), mapvals(config.Codecs)
+//@   ensures flat(config.Interceptor) == old(flat(config.Interceptor)) ++ decl(o)
+
+// A nil entry in an option list is a caller error (the call panics); it is not part of C16.
+//@ func (*optionsOption).applyToClient(o, config)
+//@   tags C16
+//@   requires o != nil && config != nil
+//@   nosafety nil
+//@   assigns everything
+//@   implements ClientOption.applyToClient
+//@   loop rangeindex:
+//@     invariant 0 - 1 <= rangeindex && rangeindex < |o.options| && unfoldDpre(seq(o.options), rangeindex + 1)
+//@     invariant flat(config.Interceptor) == old(flat(config.Interceptor)) ++ dpre(seq(o.options), rangeindex + 1)
+//@     decreases |o.options| - rangeindex
+
+//@ func (*optionsOption).applyToHandler(o, config)
+//@   tags C16
+//@   requires o != nil && config != nil
+//@   nosafety nil
+//@   assigns everything
+//@   implements HandlerOption.applyToHandler
+//@   loop rangeindex:
+//@     invariant 0 - 1 <= rangeindex && rangeindex < |o.options| && unfoldDpre(seq(o.options), rangeindex + 1)
+//@     invariant flat(config.Interceptor) == old(flat(config.Interceptor)) ++ dpre(seq(o.options), rangeindex + 1)
+//@     decreases |o.options| - rangeindex
+
+//@ func (*clientOptionsOption).applyToClient(o, config)
+//@   tags C16
+//@   requires o != nil && config != nil
+//@   nosafety nil
+//@   assigns everything
+//@   implements ClientOption.applyToClient
+//@   loop rangeindex:
+//@     invariant 0 - 1 <= rangeindex && rangeindex < |o.options| && unfoldDpre(seq(o.options), rangeindex + 1)
+//@     invariant flat(config.Interceptor) == old(flat(config.Interceptor)) ++ dpre(seq(o.options), rangeindex + 1)
+//@     decreases |o.options| - rangeindex
+
+//@ func (*handlerOptionsOption).applyToHandler(o, config)
+//@   tags C16
+//@   requires o != nil && config != nil
+//@   nosafety nil
+//@   assigns everything
+//@   implements HandlerOption.applyToHandler
+//@   loop rangeindex:
+//@     invariant 0 - 1 <= rangeindex && rangeindex < |o.options| && unfoldDpre(seq(o.options), rangeindex + 1)
+//@     invariant flat(config.Interceptor) == old(flat(config.Interceptor)) ++ dpre(seq(o.options), rangeindex + 1)
+//@     decreases |o.options| - rangeindex
